@@ -18,8 +18,8 @@ RULE = ('cases = claim histories of one CA (bypassed / immediate range / veto ra
         '(state sampled at every frame) never the preferred address in 128..247 earlier than 249 ms after its initial claim, and never an address a lower NAME has claimed on the bus more than 5 ms earlier; non-trivial = >= 1 probe in an operational and >= 1 in a non-operational state; distinct = history + layer')
 ASSUMPTIONS = ['"holds" is read through the public state / device_address properties at the instant each frame is emitted and cross-checked against the '
                'CA\'s own last claim frame on the bus', 'a Dm1 cycle that raises inside the job thread may end that thread; liveness is not part of this property']
-MIN_OBS = {'calls_nonoperational': {'quick': 10000, 'thorough': 150000}, 'calls_operational': {'quick': 10000, 'thorough': 150000},
-           'frames_attributed': {'quick': 15000, 'thorough': 200000}, 'null_address_requests': {'quick': 1000, 'thorough': 15000}}
+MIN_OBS = {'calls_nonoperational': {'quick': 10000, 'thorough': 100000}, 'calls_operational': {'quick': 10000, 'thorough': 100000},
+           'frames_attributed': {'quick': 15000, 'thorough': 150000}, 'null_address_requests': {'quick': 1000, 'thorough': 12000}}
 
 HISTORIES = ['bypass', 'imm_ok', 'veto_ok', 'veto_lose', 'lose_after', 'win', 'lose_twice']
 
@@ -27,7 +27,7 @@ HISTORIES = ['bypass', 'imm_ok', 'veto_ok', 'veto_lose', 'lose_after', 'win', 'l
 def cases(tier, seed):
     rng = random.Random(13000 + seed)
     out = []
-    n = 80 if tier == 'quick' else 1200
+    n = 80 if tier == 'quick' else 2400
     for layer in ('j1939-21', 'j1939-22'):
         for h in HISTORIES:
             for aac in (0, 1):
